@@ -219,6 +219,7 @@ EXTRA_SOURCES = {'mod25519.c': ['multiply_64.c'], 'bignum.c': ['multiply_64.c'],
                  'ec_ws.c+mont.c': ['p256_table.c', 'p384_table.c', 'p521_table.c']}
 
 
+
 _SHIM = r"""
 #include <stdlib.h>
 #include <string.h>
